@@ -90,7 +90,8 @@ reg('Macd', cfg=lambda r, h: (lambda a: ([a[0], a[1], P(r, h)], []))(two_sorted(
 reg('Qstick', cfg=lambda r, h: ([P(r, h)], []), default=([20], []), idle=lambda ns: ns[0],
     inds=[('Qstick', lambda ns: ns, 'oc')], needs_prev=True,
     rule=lambda v, s, pv: cross(pv[0], v[0]), margin=lambda v, s, pv: min(abs(v[0]), abs(pv[0])))
-reg('Smma', cfg=lambda r, h: (list(two_sorted(r, h)), []), default=([20, 50], []), idle=lambda ns: max(ns),
+# (the two periods in either order: the strategy aligns both averages to the longer one, whichever it is)
+reg('Smma', cfg=lambda r, h: ((lambda p: p[::-1] if r.random() < 0.35 else p)(list(two_sorted(r, h))), []), default=([20, 50], []), idle=lambda ns: max(ns),
     inds=[('Smma', lambda ns: [ns[0]], 'c'), ('Smma', lambda ns: [ns[1]], 'c')],
     rule=lambda v, s, pv: gt(v[0], v[1]), margin=lambda v, s, pv: abs(v[0] - v[1]))
 reg('Trima', cfg=lambda r, h: (list(two_sorted(r, h)), []), default=([20, 50], []), idle=lambda ns: trima_idle(ns[1]),
